@@ -9,6 +9,7 @@ mod model;
 mod oracle;
 mod report;
 mod rng;
+mod strace;
 mod sut;
 
 use report::{Ctx, Tier};
